@@ -567,6 +567,11 @@ func genSchedConfig(r *rng, n int, estLen uint64, opOnly bool, tier string) Sche
 	if r.chance(6) {
 		c.GCRate = uint64(200 + r.intn(3000))
 	}
+	if hook.PoolSites > 0 && r.chance(2) {
+		// the tree uses sync.Pool: half of the runs see it miss and drop (what other processors' caches and
+		// collections do to it in production)
+		c.PoolRate = []uint32{2, 4, 16}[r.intn(3)]
+	}
 	if hook.ClockSites > 0 && r.chance(2) {
 		// the tree reads the clock: half of the runs see it jump (clock-jump fault), the others see it creep
 		c.ClockRate = []uint32{20, 200, 2000, 20000}[r.intn(4)]
